@@ -773,4 +773,56 @@ theorem skipComment_spec {s : Src} (hs : AsciiThenBoundary s) (p : Nat) (hp : p 
   have := skipCommentGo_spec hs (s.size - p + 1) p hp hb
   exact ⟨this.2.2.1 (by omega), this.2.1, this.2.2.2⟩
 
+/-! ### every `String` satisfies `AsciiThenBoundary` -/
+
+theorem firstByte_not_cont : ∀ b : UInt8, b.IsUTF8FirstByte → ((b &&& 0xC0) != 0x80) = true := by
+  apply forall_uint8; decide +kernel
+
+theorem ascii_and_eq_zero : ∀ b : UInt8, b < 128 → b &&& 0x80 = 0 := by
+  apply forall_uint8; decide +kernel
+
+theorem pos_byte_eq (str : String) (pos : str.Pos) (h : pos ≠ str.endPos) :
+    pos.byte h = str.toByteArray[pos.offset.byteIdx]'(String.Pos.byteIdx_lt_utf8ByteSize pos h) := by
+  simp [String.Pos.byte, String.Slice.Pos.byte, String.Slice.getUTF8Byte, String.getUTF8Byte, -String.Pos.byte_toSlice]
+
+/-- a valid position of `str` is a char boundary of its UTF-8 bytes -/
+theorem isBoundary_of_isValid (str : String) (r : String.Pos.Raw) (h : r.IsValid str) :
+    isBoundary str.toUTF8.data r.byteIdx = true := by
+  rcases String.Pos.Raw.isValid_iff_isUTF8FirstByte.mp h with rfl | ⟨hlt, hfb⟩
+  · have : str.rawEndPos.byteIdx = str.toUTF8.data.size := rfl
+    rw [this]; exact bnd_size _
+  · have hlt' : r.byteIdx < str.toUTF8.data.size := String.Pos.Raw.lt_iff.mp hlt
+    have hget : str.toUTF8.data[r.byteIdx]? = some (str.getUTF8Byte r hlt) := by
+      rw [Array.getElem?_eq_getElem hlt']; rfl
+    unfold isBoundary
+    rw [hget]
+    simp only [firstByte_not_cont _ hfb, Bool.or_true]
+
+theorem asciiThenBoundary_of_string (str : String) : AsciiThenBoundary str.toUTF8.data := by
+  intro i b hb hlt
+  have hi : i < str.toUTF8.data.size := get_lt hb
+  have hbe : str.toUTF8.data[i] = b := by
+    have := Array.getElem?_eq_getElem hi
+    rw [this] at hb; exact Option.some.inj hb
+  -- position `i` is valid, because its byte is a first byte
+  have hrlt : (⟨i⟩ : String.Pos.Raw) < str.rawEndPos := String.Pos.Raw.lt_iff.mpr hi
+  have hgb : str.getUTF8Byte ⟨i⟩ hrlt = b := hbe
+  have hv : (⟨i⟩ : String.Pos.Raw).IsValid str :=
+    String.Pos.Raw.isValid_iff_isUTF8FirstByte.mpr (Or.inr ⟨hrlt, by rw [hgb]; exact Or.inl (ascii_and_eq_zero b hlt)⟩)
+  let pos : str.Pos := ⟨⟨i⟩, hv⟩
+  have hne : pos ≠ str.endPos := by
+    intro h
+    have := congrArg (fun p => p.offset.byteIdx) h
+    simp only [pos, String.offset_endPos, String.byteIdx_rawEndPos] at this
+    have e : str.utf8ByteSize = str.toUTF8.data.size := rfl
+    omega
+  have hbyte : pos.byte hne = b := by rw [pos_byte_eq]; exact hbe
+  have hsz : (pos.get hne).utf8Size = 1 := by
+    rw [← String.Pos.utf8ByteSize_byte (h := hne)]
+    simp only [UInt8.utf8ByteSize, hbyte, ascii_and_eq_zero b hlt, if_true]
+  have hnext : (pos.next hne).offset.byteIdx = i + 1 := by
+    rw [String.Pos.byteIdx_offset_next, hsz]
+  have := isBoundary_of_isValid str (pos.next hne).offset (pos.next hne).isValid
+  rwa [hnext] at this
+
 end FluentProofs.Parser
